@@ -13,8 +13,10 @@ def run_timed(pid, tier, seed, args, with_faults, rule, extra_specs=()):
     from .base_run import COMMON_ASSUMPTIONS, run_specs
     t0 = time.time()
     P, E = P_E()
-    cfg = dict(storage="memory")
-    scs, grid = timed.scenarios(tier, cfg, with_faults=with_faults)
+    # the sweep arithmetic must not depend on the usage / blur configuration either (C18): second pass with both on
+    scs, grid = timed.scenarios(tier, dict(storage="memory"), with_faults=with_faults)
+    scs2, _ = timed.scenarios(tier, dict(storage="memory", usage=True, blur=600), with_faults=False)
+    scs = scs + (scs2 if tier != "quick" else scs2[::3])
     res = scen.run_all(scs, timed.TimedMon, P, workers=args.workers if args else None,
                        budget_s=(args.budget if args and args.budget else (90 if tier == "quick" else 1500)), seed=seed)
     viols = [v for v in res["viols"] if v["property"] == pid]
